@@ -3,6 +3,7 @@
   armor, classification and the stream state machines.
 -/
 import Driver.Util
+import Saltpack.Model.Armor
 
 open Saltpack
 
@@ -120,6 +121,36 @@ def handle (toks : List String) : Option String :=
           | _, _ => "-"
         some s!"res {showOptErr r.err} rel={toHex r.released} signer={snd}"
     | _, _, _, _ => none
+  | ["armor.seal", typ, brand, payload] =>
+    match typ.toInt?, ofHex brand, ofHex payload with
+    | some typ, some brand, some payload => some s!"ok {toHex (Armor.seal62 typ brand payload)}"
+    | _, _, _ => none
+  | ["armor.open", expect, text] =>
+    match (if expect = "none" then some none else expect.toInt?.map some), ofHex text with
+    | some ex, some text =>
+      match Armor.open62 ex text with
+      | .ok o => some s!"ok payload={toHex o.payload} brand={toHex o.brand} header={toHex o.header} footer={toHex o.footer}"
+      | .error e => some s!"err {showErr e}"
+    | _, _ => none
+  | ["armor.frame", which, typ, brand] =>
+    match typ.toInt?, ofHex brand with
+    | some typ, some brand =>
+      some s!"ok {toHex (if which = "h" then Armor.header typ brand else Armor.footer typ brand)}"
+    | _, _ => none
+  | ["armor.parse", typ, which, text] =>
+    match typ.toInt?, ofHex text with
+    | some typ, some text =>
+      match Armor.parseFrame text typ (if which = "h" then Gen.c_sp_headerMarker else Gen.c_sp_footerMarker) with
+      | .ok b => some s!"ok {toHex b}"
+      | .error e => some s!"err {showErr e}"
+    | _, _ => none
+  | ["armor.check", typ, hdr, ftr] =>
+    match typ.toInt?, ofHex hdr, ofHex ftr with
+    | some typ, some hdr, some ftr =>
+      match Armor.checkArmor62 hdr ftr typ with
+      | .ok b => some s!"ok {toHex b}"
+      | .error e => some s!"err {showErr e}"
+    | _, _, _ => none
   | ["sig.verifydetachedp", valid, lsig, hdr, hf, sg, msg] =>
     match mkValidator valid, parseHdr parseSigHF hdr hf, ofHex msg with
     | some valid, some hr, some msg =>
